@@ -10,7 +10,9 @@ of every token (path inside the instance / content it wrote into the referenced 
 
 Slices: 'clean' (overlapping names, but sequential substitution cannot go wrong - any discrepancy is a
 VIOLATION), 'hazard' (overlap pairs planted; a discrepancy that is exactly the known mechanism is a
-KNOWN-FINDING), 'mixed' (chance).
+KNOWN-FINDING), 'mixed' (chance), 'trailsep' (as 'clean', and every case uses a :ref reference whose producer is spelled
+with a trailing separator before the method - `P/:ref`, `stageN.P/:ref`, i.e. an empty file part -, alone or next to a
+reference to the same-named producer of the consumer's own stage).
 """
 import json
 import os
@@ -74,7 +76,7 @@ def class_key(exp_model, case, hz):
     files = sorted({"file" if r.get("file") else "dir" for r in case["refs"] if r["kind"] == "comp"})
     return json.dumps([min(len(case["refs"]), 5), "output" in meth, kinds, sp, cross,
                        M.name_relations(exp_model), sorted({h["kind"] for h in M.overlaps(exp_model, case)}),
-                       bool(hz)])
+                       bool(hz), M.trailing_separator_kind(exp_model, case)])
 
 
 def judge_exp(exp_model, w, mode):
@@ -127,6 +129,13 @@ def judge_exp(exp_model, w, mode):
                 w.count("cases_with_output_reference")
             if any(t[0] == "ref" and t[2] == "rel" for t in case["args"]):
                 w.count("cases_with_relative_spelling")
+            tsk = M.trailing_separator_kind(exp_model, case)
+            if tsk:
+                w.count("cases_with_trailing_separator_reference")
+                if tsk == "next-to-same-name":
+                    w.count("cases_trailing_separator_next_to_same_named_producer")
+                if not hz:
+                    w.count("cases_trailing_separator_without_hazard")
             w.distinct(class_key(exp_model, case, hz))
             order_dependent = len(set(results.values())) > 1
             if not bad and not order_dependent:
@@ -184,7 +193,8 @@ def main():
         PROP, "exploration",
         rule="evaluation = one consumer argument string judged under all its declaration orders; distinct = structural "
              "class (#references capped 5, uses :output, direct/component kinds, spellings used, "
-             "cross-stage producers, textual relations between producer names, overlap kinds, hazard)",
+             "cross-stage producers, textual relations between producer names, overlap kinds, hazard, "
+             "trailing-separator reference none/alone/next-to-same-name)",
         assumptions=[
             "producer names follow the DSL name alphabet, do not end in a digit, are not reserved folder names",
             "stage-less spelling is only used for producers of the consumer's own stage (FlowIR reads a stage-less "
@@ -192,6 +202,8 @@ def main():
             "literal text and file contents contain no ':' and no '%' (no text that is itself a reference or a variable)",
             "only :ref and :output references appear in argument strings; copy/link references are declared only",
             "a single trailing newline of an :output file may or may not be kept (both accepted)",
+            "a reference with an empty file part (`P/:ref`) is only generated for method ref; its value is the "
+            "producer's working directory, with or without the trailing separator (both accepted)",
         ])
     rp = vlib.load_replay(sys.argv)
     if rp is not None:
@@ -204,8 +216,8 @@ def main():
         print("replay: %s" % ("still discrepant" if w.violations else "no longer discrepant"))
         sys.exit(c.finish())
     thorough = vlib.tier() == "thorough"
-    plan = [("clean", 110), ("hazard", 50), ("mixed", 40)] if not thorough else \
-        [("clean", 1800), ("hazard", 700), ("mixed", 700)]
+    plan = [("clean", 110), ("hazard", 50), ("mixed", 40), ("trailsep", 30)] if not thorough else \
+        [("clean", 1800), ("hazard", 700), ("mixed", 700), ("trailsep", 400)]
     scale = vlib_scale()
     if scale != 1.0:
         plan = [(m, max(10, int(n * scale))) for m, n in plan]
@@ -223,7 +235,10 @@ def main():
     c.floor("evaluations", total * 3 - total // 5)
     c.floor("declaration_orders_judged", total * 3 * 6)
     for name, q, t in [("cases_without_hazard_with_overlapping_names", 150, 3000), ("cases_all_permutations", 100, 2000),
-                       ("cases_with_output_reference", 100, 2000), ("cases_with_relative_spelling", 60, 1200)]:
+                       ("cases_with_output_reference", 100, 2000), ("cases_with_relative_spelling", 60, 1200),
+                       ("cases_with_trailing_separator_reference", 70, 900),
+                       ("cases_trailing_separator_without_hazard", 50, 700),
+                       ("cases_trailing_separator_next_to_same_named_producer", 25, 350)]:
         c.floor(name, int((t if thorough else q) * min(1.0, scale)))
     sys.exit(c.finish())
 
